@@ -34,6 +34,7 @@ type wStep struct {
 	URL      string
 	Preset   int    // blob/stream: 1 = another Content-Type is already set when the helper is called; 2 = several values are set, the first equal to the given type
 	Format   string // string: called as String(code, Format) without values; Data holds what the format stands for
+	FailOnly bool   // hijack with FailCap: the refused attempt is the only one - the connection was NOT taken over, the writer goes on as before
 	FailCap  bool   // capability steps: the connection's first answer is an error (passed through), the call is then repeated
 }
 
@@ -109,7 +110,13 @@ func genWSteps(src sim.Source) []wStep {
 		case k < 18:
 			out = append(out, wStep{Kind: "redirect", Code: sim.Pick(src, "rcode", []int{299, 300, 301, 302, 303, 304, 305, 306, 307, 308, 309, 310, 399, 200, 3000}), URL: "http://sim.invalid/next"})
 		case k < 19 && i == n-1:
-			out = append(out, wStep{Kind: "hijack", FailCap: src.Intn("failcap", 3) == 2})
+			hs := wStep{Kind: "hijack", FailCap: src.Intn("failcap", 3) == 2}
+			hs.FailOnly = hs.FailCap && sim.Bool(src, "failonly")
+			out = append(out, hs)
+			if hs.FailOnly {
+				// the handler falls back to an ordinary answer after the refused take-over
+				out = append(out, wStep{Kind: "writeheader", Code: 500}, wStep{Kind: "write", Data: data()})
+			}
 		default:
 			out = append(out, wStep{Kind: "write", Data: data()})
 		}
@@ -156,6 +163,7 @@ func runWHistory(w *world.World, steps []wStep, caps world.Caps, reqCT string, c
 			}
 		}
 		truth("handler entry")
+		hijackedOK := false // a take-over succeeded: the recorder rightly refuses writes from then on
 		for i, st := range steps {
 			before := len(conn.Body)
 			evBefore := len(conn.Events)
@@ -171,6 +179,13 @@ func runWHistory(w *world.World, steps []wStep, caps world.Caps, reqCT string, c
 				}
 				if string(conn.Body[before:]) != data[:got] {
 					fail = fmt.Sprintf("%s: bytes forwarded out of order: %q is not a prefix of %q", name, conn.Body[before:], data)
+					return
+				}
+				if err != nil && !srcErr && got == len(data) {
+					// (every byte was taken, yet an error came back - fine for the caller to see, nothing lost)
+				} else if err != nil && !srcErr && !hijackedOK && (conn.FailAfter < 0 || before+len(data) <= conn.FailAfter) {
+					// every body byte is forwarded: a writer in front of a connection that takes bytes does not refuse them
+					fail = fmt.Sprintf("%s: the call failed with %v although the connection was ready to accept these %d bytes (it received %d)", name, err, len(data), got)
 					return
 				}
 				if got < len(data) && err == nil && !srcErr {
@@ -269,6 +284,10 @@ func runWHistory(w *world.World, steps []wStep, caps world.Caps, reqCT string, c
 						fail = fmt.Sprintf("%s: the connection answered %v, the caller got %v (delegated=%v)", name, world.ErrCap, e, hasEvent(conn, evBefore, st.Kind))
 					}
 					evBefore = len(conn.Events)
+					if st.Kind == "hijack" && st.FailOnly {
+						// a refused take-over leaves everything as it was: the steps that follow are judged like any others
+						break
+					}
 				}
 				err = call()
 				if fail != "" {
@@ -280,6 +299,7 @@ func runWHistory(w *world.World, steps []wStep, caps world.Caps, reqCT string, c
 					fail = fmt.Sprintf("%s: capability not offered, error %v does not match http.ErrNotSupported", name, err)
 				}
 				if st.Kind == "hijack" {
+					hijackedOK = true
 					return // the recorder refuses writes afterwards; getters are no longer compared
 				}
 			case "string", "blob":
